@@ -1,3 +1,4 @@
+mod corpus;
 mod engine;
 mod props;
 mod sexpr;
